@@ -4,15 +4,14 @@
  * NULL, may fail, sized-free assertion).  The 2-safety lemma units need the
  * SAME allocation outcomes in both runs they compare; they switch the
  * allocator to a schedule (g_alloc_sched): request number i of a run is
- * refused iff bit i of the arbitrary mask g_fail_mask is set, and every
+ * refused iff bit i of the arbitrary mask g_fail_mask is set, and every data
  * request above VP_LEM_OBJ bytes is refused (a legitimate allocator may refuse
- * any request); granted blocks all have VP_LEM_OBJ bytes, because heap
- * objects of symbolic size made CBMC's array post-processing explode (18 M
- * variables for a 3-byte input).  Memory safety is therefore NOT what the
- * lemma units establish (the contract units do, with exact sizes); the sized
- * free assertion is skipped in schedule mode.  Those units run cbmc with
- * --no-malloc-may-fail so that malloc itself adds no second source of
- * failure.
+ * any request).  Granted blocks come from two static pools (bump allocation,
+ * no reuse): heap objects of symbolic size, and even a dozen fixed-size
+ * malloc objects, made CBMC's formula explode (3 M variables for a 2-byte
+ * input).  Memory safety is therefore NOT what the lemma units establish (the
+ * contract units do, with exact sizes).  Those units run cbmc with
+ * --no-malloc-may-fail.
  *
  * Chunk list: the code only ever appends a chunk and looks at the last one.
  * The intrusive nni_list is modelled by a ghost record (count, last member,
@@ -21,25 +20,36 @@
 #ifndef VP_HTTPCHUNK_ENV_H
 #define VP_HTTPCHUNK_ENV_H
 
-#define VP_LEM_OBJ ((size_t) 64)
+#define VP_LEM_OBJ ((size_t) 8)
+#define VP_POOL 6
+nni_http_chunk g_pool_ch[VP_POOL];
+char           g_pool_d[VP_POOL][8];
+size_t         g_pool_nch, g_pool_nd;
+
 static bool
-vp_alloc_refused(size_t sz)
+vp_sched_refused(void)
 {
-	if (g_alloc_sched) {
-		size_t i = g_alloc_seq;
-		g_alloc_seq++;
-		if (sz > VP_LEM_OBJ) {
-			return (true);
-		}
-		return (i >= 8 * sizeof(size_t) ? true : ((g_fail_mask >> i) & 1) != 0);
-	}
-	return (false);
+	size_t i = g_alloc_seq;
+	g_alloc_seq++;
+	return (i >= 8 * sizeof(size_t) ? true : ((g_fail_mask >> i) & 1) != 0);
 }
 
 void *
 nni_alloc(size_t sz)
 {
-	void *p = (sz > 0 && !vp_alloc_refused(sz)) ? (g_alloc_sched ? malloc(VP_LEM_OBJ) : malloc(sz)) : NULL;
+	void *p;
+	if (g_alloc_sched) {
+		bool refused = vp_sched_refused();
+		if (sz == 0 || sz > VP_LEM_OBJ || refused) {
+			return (NULL);
+		}
+		__CPROVER_assert(g_pool_nd < VP_POOL, "lemma allocator: data pool large enough for the bound");
+		p = &g_pool_d[g_pool_nd][0];
+		g_pool_nd++;
+		g_alloc_ok++;
+		return (p);
+	}
+	p = (sz > 0 ? malloc(sz) : NULL);
 	if (p != NULL) {
 		g_alloc_ok++;
 	}
@@ -49,7 +59,21 @@ nni_alloc(size_t sz)
 void *
 nni_zalloc(size_t sz)
 {
-	void *p = (sz > 0 && !vp_alloc_refused(sz)) ? (g_alloc_sched ? calloc(1, VP_LEM_OBJ) : calloc(1, sz)) : NULL;
+	void *p;
+	if (g_alloc_sched) {
+		bool refused = vp_sched_refused();
+		__CPROVER_assert(sz == sizeof(nni_http_chunk), "lemma allocator: only chunk records are zalloc'ed");
+		if (refused) {
+			return (NULL);
+		}
+		__CPROVER_assert(g_pool_nch < VP_POOL, "lemma allocator: chunk pool large enough for the bound");
+		g_pool_ch[g_pool_nch] = (nni_http_chunk){ 0 };
+		p                     = &g_pool_ch[g_pool_nch];
+		g_pool_nch++;
+		g_alloc_ok++;
+		return (p);
+	}
+	p = (sz > 0 ? calloc(1, sz) : NULL);
 	if (p != NULL) {
 		g_alloc_ok++;
 	}
@@ -59,9 +83,13 @@ nni_zalloc(size_t sz)
 void
 nni_free(void *ptr, size_t size)
 {
-	if (ptr != NULL && g_alloc_sched) {
-		g_free_calls++;
-	} else if (ptr != NULL) {
+	if (g_alloc_sched) {
+		if (ptr != NULL) {
+			g_free_calls++; /* pool blocks are not reused */
+		}
+		return;
+	}
+	if (ptr != NULL) {
 		g_free_calls++;
 		__CPROVER_assert(__CPROVER_OBJECT_SIZE(ptr) == size,
 		    "sized free: nni_free size equals allocation size");
